@@ -40,6 +40,7 @@ type UEntry struct {
 	Crd        int  // -1 = None
 	FInv       bool // identifier fails field validation (namespace on a cluster-scoped kind / none on a namespaced one)
 	KeepVar    int  // spelling of the keep attribute (index into keepVariants; 0 = by parity of the id)
+	Mut        bool // the dependency references of this id are spelled as apply-time-mutation substitutions
 }
 
 type Universe []UEntry
@@ -527,11 +528,22 @@ func (e Env) Text() string {
 	return strings.Join(p, " ")
 }
 
+// LateSpec is a scheduling perturbation of the harness, not part of the Coq
+// scenario: when wait group Wait reaches its first terminal wait event (first
+// Timeout event, or the event that empties the pending set) the event consumer
+// stops reading for a moment (a slow consumer) and the watcher reports N more
+// statuses for objects of that group, each an exact repeat of the object's last
+// reported status (Unknown without body when there was none). In correct code
+// such a status has no effect whenever the runner gets to it (proof by cases
+// over WaitTask.StatusUpdate), so the late deliveries are not part of the trace.
+type LateSpec struct{ Wait, N, Off int }
+
 type Scenario struct {
 	Univ  Universe
 	Local []LObj
 	Opts  Opts
 	Env   Env
+	Late  []LateSpec
 }
 
 func (s Scenario) Coq() string {
@@ -561,7 +573,11 @@ func (s Scenario) Text() string {
 		t += fmt.Sprintf("v%d", o.Ver)
 		l = append(l, t)
 	}
-	return fmt.Sprintf("%s local[%s] %s", s.Opts.Text(), strings.Join(l, " "), s.Env.Text())
+	late := ""
+	for _, x := range s.Late {
+		late += fmt.Sprintf(" late@%d(n%d,o%d)", x.Wait, x.N, x.Off)
+	}
+	return fmt.Sprintf("%s local[%s] %s%s", s.Opts.Text(), strings.Join(l, " "), s.Env.Text(), late)
 }
 
 // ---- trace ---------------------------------------------------------------------------------
@@ -686,6 +702,9 @@ func (u Universe) Text() string {
 		s[i] = fmt.Sprintf("%d=%s:%s%s", i, e.Meta.GroupKind.Kind, ns, e.Meta.Name)
 		if e.KeepVar > 0 {
 			s[i] += fmt.Sprintf("~k%d", e.KeepVar)
+		}
+		if e.Mut {
+			s[i] += "~mut"
 		}
 	}
 	return strings.Join(s, " ")
